@@ -31,6 +31,98 @@ def sqrt_args(sym, acc=None):
     return acc
 
 
+def check_reversal_classification(ck, fn, main_paths):
+    """D9 - a path that answers 'every step is taken in the initial direction' (position =
+    sign(rate at tick 1) * steps) without any condition on the step count must lie in the region
+    of (rate, accel) where the rate sequence r_t = rate - trunc(accel/2) + accel*t never changes
+    sign after tick 1, i.e. accel = 0, r_1 = 0 or sign(r_1) = sign(accel).  Where rate and accel
+    let the motor run r_1's way for some ticks and then reverse, the number of steps taken before
+    the reversal is bounded, so the answer is wrong for every larger step count.  The two regions
+    are compared on integer points; a violation names a point of the difference."""
+    from fractions import Fraction
+    q = fn.qualname
+    steps, rate, accel = V('steps'), V('rate'), V('accel')
+    r1 = rate - mk_func('TRUNC', accel / 2) + accel
+    scale = 1000003                  # odd, large: keeps the points away from exact landings
+    vals = [k * scale + d for k in (-7, -5, -4, -3, -2, -1, 1, 2, 3, 4, 5, 7) for d in (0, 1)]
+    sgn = lambda x: (x > 0) - (x < 0)
+    n_judged = 0
+    witness = None
+    seen_regions = set()
+    for o, cut, mode in main_paths:
+        if mode != 'clear' or not (isinstance(o.value, Tup) and len(o.value.items) == 3):
+            continue
+        pos = o.value.items[1]
+        if not isinstance(pos, Sym):
+            continue
+        ratio = pos / steps
+        if not (ratio.is_const() and abs(ratio.const_value()) == 1):
+            continue
+        sigma = int(ratio.const_value())
+        region, bounded = [], False
+        for c_, t_ in o.state.path:
+            nc = motion.norm_path_cond(c_, t_)
+            if nc is None:
+                continue
+            names = {a[1] for a in nc[0].all_atoms() if a[0] == 'v'}
+            if 'steps' in names:
+                if motion.identify(nc[0], [steps], []) is not None:
+                    region.append(nc)    # sign test of steps (mirroring)
+                    continue
+                # "steps compared with something" = c*steps + f(rate, accel, accum), c constant:
+                # a bound on the step count (the discriminant of the duration quadratic also
+                # mentions steps, but multiplied by accel - it bounds nothing)
+                rest = nc[0].subs({('v', 'steps'): Sym.const(0)})
+                lin = nc[0] - rest
+                coef = (lin / steps)
+                if coef.is_const() and coef.const_value() != 0:
+                    bounded = True
+            elif names <= {'rate', 'accel'}:
+                region.append(nc)
+        if bounded:
+            continue
+        n_judged += 1
+        key = (sigma, frozenset((repr(e), op) for e, op in region))
+        if key in seen_regions:
+            continue
+        seen_regions.add(key)
+        # cheapest (and most selective) conditions first
+        region.sort(key=lambda c: len(repr(c[0])))
+        for rv in vals:
+            for av in vals:
+                for sv in (5, -5):
+                    asg = {'rate': Fraction(rv), 'accel': Fraction(av), 'steps': Fraction(sv)}
+                    try:
+                        if not all(motion._holds(e.evaluate(asg), op) for e, op in region):
+                            continue
+                        r1v = r1.evaluate(asg)
+                    except (ZeroDivisionError, KeyError, ValueError):
+                        continue
+                    # legacy mirroring: steps < 0 negates rate, accel and the reported position
+                    m = -1 if sv < 0 else 1
+                    if sgn(r1v) * m == sigma * sgn(sv) and sgn(r1v) != 0 and av != 0 and \
+                            sgn(r1v) != sgn(av):
+                        witness = (rv, av, sv, sigma)
+                        break
+                if witness:
+                    break
+            if witness:
+                break
+        if witness:
+            break
+    rv, av, sv, sigma = witness or (0, 0, 0, 0)
+    ck.ob('C03-D9-reversal-classification', q, witness is None,
+          '%s answers "all %s steps in the initial direction" (position %s) for rate=%d, accel=%d '
+          'on a path with no condition on the step count, although the rate at tick 1 (%d) and '
+          'accel have opposite signs: the motor reverses after tick 1 and every step beyond the '
+          'few taken before the reversal goes the other way (the classification of "no reversal" '
+          'must imply that the rate keeps its sign after tick 1)'
+          % (q, '|steps|', '%+d*steps' % sigma, rv, av,
+             rv - int(Fraction(av, 2)) + av if av else 0), fn.loc(),
+          key='calculate_lm::reversal-classification')
+    ck.floor('single-direction computing paths judged for reversal', n_judged, 1)
+
+
 def check_root_guard(ck, fn, main_paths):
     """D8: the roots of the duration quadratic are computed for every non-negative discriminant.
     A path that skips the square root may do so only under discriminant < 0 (no real root); a
@@ -262,6 +354,7 @@ def run(ck, prog, tier):
         ck.floor('calculate_lm[%s] computing paths' % mode, n_main, 20)
     ck.floor('constant-rate computing paths', n_const[0], 4)
     check_root_guard(ck, fn, main_paths)
+    check_reversal_classification(ck, fn, main_paths)
     n_paths, n_ops = motion.check_precision(ck, 'C03-D5-precision', fn, all_out)
     ck.floor('calculate_lm mpmath operations', n_ops, 10)
     n_div = motion.check_float_division(ck, 'C03-D5-float-division', fn)
